@@ -20,6 +20,9 @@ import (
 type TypeCtx struct {
 	M     *ir.Module
 	named map[string]types.Type
+	// Intern: literal struct terms are one object per term (type-level histories); interned by rendering
+	Intern   bool
+	interned map[string]*types.StructType
 }
 
 // NewTypeCtx returns a context; m may be nil (no type definitions are registered then).
@@ -73,6 +76,19 @@ func (tc *TypeCtx) Type(t *Type) types.Type {
 		fs := make([]types.Type, len(t.FS))
 		for i := range t.FS {
 			fs[i] = tc.Type(&t.FS[i])
+		}
+		if tc.Intern {
+			key := t.String()
+			if st, ok := tc.interned[key]; ok {
+				return st
+			}
+			st := types.NewStruct(fs...)
+			st.Packed = t.PK
+			if tc.interned == nil {
+				tc.interned = map[string]*types.StructType{}
+			}
+			tc.interned[key] = st
+			return st
 		}
 		st := types.NewStruct(fs...)
 		st.Packed = t.PK
@@ -950,6 +966,7 @@ func BuildProg(p *Prog) *Built { return BuildProgTracked(p, new(string)) }
 func BuildProgTracked(p *Prog, cur *string) *Built {
 	m := ir.NewModule()
 	bt := &Built{M: m, tc: NewTypeCtx(m), byName: map[string]constant.Constant{}, cur: cur}
+	bt.tc.Intern = p.InternStructs
 	// the function under construction is created first when a declaration refers to it
 	// (aliases, ifuncs, blockaddress); its body is filled afterwards
 	var params []*ir.Param
@@ -1091,6 +1108,10 @@ func BuildHist(p *Prog, cur *string) *Built {
 	q := *p
 	q.Fn = p.Hist.Init
 	q.Hist = nil
+	if len(p.Hist.Decls) > 0 {
+		q.Decls = p.Hist.Decls
+	}
+	q.InternStructs = true
 	bt := BuildProgTracked(&q, cur)
 	// the constructor call of a new instruction: Block.NewXxx appends it; it is taken off the end again
 	make1 := func(bi int, c *Case) (value.User, ir.Instruction) {
@@ -1145,6 +1166,11 @@ func BuildHist(p *Prog, cur *string) *Built {
 					redirect(blk.Term)
 				}
 			}
+		case "nametype":
+			// Module.NewTypeDef on the one object all values built so far share; later steps refer to
+			// the type by its name
+			obj := bt.tc.Type(s.Ty)
+			bt.tc.named[s.Name] = bt.M.NewTypeDef(s.Name, obj)
 		case "setname-inst":
 			bt.Insts[bi][ii].(value.Named).SetName(s.Name)
 		case "setname-param":
